@@ -117,6 +117,11 @@ def materialise(where: str, backend: str, files: list) -> str:
     if backend == 'zip':
         path = os.path.join(where, 'pack.zip')
         with zipfile.ZipFile(path, 'w') as zf:
+            # archives made by `zip -r`, 7-zip or ZipFile.mkdir carry an entry for each folder (name ending in '/', no data) - also
+            # for folders without files; such entries are not files
+            folders = {name.rsplit('/', 1)[0] for name, _ in files if '/' in name}
+            for fo in sorted({f'{fo2[:i]}' for fo2 in folders for i in [j for j, c in enumerate(fo2) if c == '/'] + [len(fo2)]} | {'empty_dir'}):
+                zf.writestr(zipfile.ZipInfo(fo + '/'), b'')
             for name, data in files:
                 zf.writestr(name, data)
         return path
@@ -790,11 +795,75 @@ def same_systems(got: list, want: list) -> bool:
 # ---------------------------------------------------------------------------------------------
 # shards
 
+def extras_battery(acc: core.Acc, workdir: str) -> None:
+    """(1) names differing only in case inside ONE member: the chain's de-duplicated walk (and iteration) lists the folded name once,
+    for chains of one and of two members, every backend; (2) a zip file system built over a ZipFile object the caller owns: dropping one
+    such file system leaves the archive, and other file systems sharing it, usable."""
+    import gc
+    twins = [('cfg/Notes.txt', b'<upper>'), ('cfg/notes.TXT', b'<lower>'), ('a.txt', b'<a>')]
+    other = [('b.txt', b'<b>')]
+    for backend in BACKENDS:
+        p1 = materialise(os.path.join(workdir, 'twins_' + backend), backend, twins if backend != 'vpk' else vpk_order(twins))
+        p2 = materialise(os.path.join(workdir, 'other_' + backend), backend, other)
+        for shape in ('one_member', 'two_members', 'two_members_twins_last', 'prefixed'):
+            acc.evaluations += 1
+            acc.nontrivial += 1
+            case = {'part': 'extras', 'what': 'case_twins', 'backend': backend, 'shape': shape}
+            try:
+                f1, f2 = open_fs(backend, p1, twins), open_fs(backend, p2, other)
+                chain = {'one_member': lambda: FileSystemChain(f1), 'two_members': lambda: FileSystemChain(f1, f2),
+                         'two_members_twins_last': lambda: FileSystemChain(f2, f1), 'prefixed': lambda: FileSystemChain((f1, 'cfg'))}[shape]()
+                for how, names in (('walk_folder("")', [f.path for f in chain.walk_folder('')]), ('iteration', [f.path for f in chain]),
+                                   ('walk_folder("cfg")', [f.path for f in chain.walk_folder('cfg')] if shape != 'prefixed' else [])):
+                    folded = [norm(n) for n in names]
+                    if len(folded) != len(set(folded)):
+                        acc.fail('walk_duplicate', dict(case, how=how), f'{backend} member holding cfg/Notes.txt and cfg/notes.TXT, chain {shape}: {how} lists {names}: '
+                                 f'a name (compared without case) more than once', backend=backend, op='walk')
+                        break
+            except Exception as exc:  # noqa: BLE001
+                acc.fail('walk_raises', case, f'{backend} chain {shape} with case twins: {type(exc).__name__}: {exc}', backend=backend, op='walk')
+    # (2)
+    files = [('materials/x.vmt', b'<x>'), ('a.txt', b'<a>')]
+    zpath = materialise(os.path.join(workdir, 'shared_zip'), 'zip', files)
+    for dropped in ('first', 'second', 'prefixed_chain_member'):
+        acc.evaluations += 1
+        acc.nontrivial += 1
+        case = {'part': 'extras', 'what': 'shared_zipfile', 'dropped': dropped}
+        zf = zipfile.ZipFile(zpath)
+        try:
+            fs_a = ZipFileSystem(zpath, zf)
+            fs_b = ZipFileSystem(zpath, zf)
+            if dropped == 'first':
+                keep, fs_a = fs_b, None
+            elif dropped == 'second':
+                keep, fs_b = fs_a, None
+            else:
+                keep = fs_a
+                ch = FileSystemChain((fs_b, 'materials'))
+                list(ch.walk_folder(''))
+                ch = fs_b = None
+            gc.collect()
+            got = {norm(f.path): read_all(lambda f=f: f.open_bin()) for f in keep.walk_folder('')}
+            direct = zf.read('a.txt')
+            if got != {norm(n): d for n, d in files} or direct != b'<a>':
+                acc.fail('content_mismatch', case, f'two file systems over one caller-owned ZipFile, {dropped} dropped: the other now reads {got}', backend='zip', op='open_bin')
+        except Exception as exc:  # noqa: BLE001
+            acc.fail('lookup_raises', case, f'two file systems over one caller-owned ZipFile; after the {dropped} one was dropped and collected, the other '
+                     f'(or the ZipFile itself) fails: {type(exc).__name__}: {exc}', backend='zip', op='open_bin')
+        finally:
+            zf.close()
+
+
 _SCRATCH = ''
 
 
 def shard(spec) -> core.Acc:
     acc = core.Acc()
+    if spec[0] == 'extras':
+        work = os.path.join(_SCRATCH, 'extras')
+        extras_battery(acc, work)
+        shutil.rmtree(work, ignore_errors=True)
+        return acc
     if spec[0] == 'set':
         _, idx, names = spec
         work = os.path.join(_SCRATCH, 'sets', str(idx))
@@ -844,6 +913,7 @@ def run(ctx: core.Ctx) -> None:
         else:
             for a, b in itertools.permutations(keys, 2):
                 shards.append(('chain', (a, b), k))
+    shards.append(('extras',))
     # heavy shards first (better packing); the seed only rotates within that order
     s = ctx.seed % len(shards)
     shards = shards[s:] + shards[:s]
@@ -862,7 +932,7 @@ def run(ctx: core.Ctx) -> None:
                 f"Each (set, backend, op, spelling) / (chain, op, spelling) is met once.  Non-trivial = the model expects a file "
                 f"(lookup) / a non-empty listing (walk), or the oracle failed.")
     ctx.assumptions.append('POSIX host with a case-sensitive tmpfs; VPK version 1 directory file with embedded data; zip '
-                           'written by zipfile (no directory entries); chain members come from a fixed pool of 24.')
+                           'written by zipfile with an explicit entry for every folder; chain members come from a fixed pool of 24.')
     ctx.coverage_extra['file_sets'] = ctx.acc.counters.get('file_sets', 0)
     ctx.coverage_extra['chains'] = ctx.acc.counters.get('chains', 0)
 
@@ -872,7 +942,10 @@ def replay(case: dict) -> list:
     base = os.path.join('/dev/shm', f'verif-C19-replay-{os.getpid()}')
     shutil.rmtree(base, ignore_errors=True)
     try:
-        if case['part'] == 'backend':
+        if case['part'] == 'extras':
+            extras_battery(acc, os.path.join(base, 'extras'))
+            fails = [f for f in acc.all_failures() if {k: v for k, v in f.case.items() if k != 'how'} == {k: v for k, v in case.items() if k != 'how'}]
+        elif case['part'] == 'backend':
             backend_battery(acc, list(case['names']), os.path.join(base, 'set'),
                             only={'backend': case['backend'], 'op': case['op'], 'base': case['base']})
             fails = [f for f in acc.all_failures()
